@@ -124,6 +124,8 @@ VARIANTS = {
     "small": {"CONFIG_ELEMENT_TABLE_ORDER": "3", "CONFIG_ROUTING_TABLE_ORDER": "2",
               "CONFIG_INITIAL_FETCH_TABLE_SIZE": "1", "CONFIG_MAX_WRITE_BUFFER_SIZE": "256"},
     "localonly": {"CONFIG_ALLOW_ADD_ONLY_FROM_LOCALHOST": "true"},
+    # large messages: paths and values beyond 16-bit lengths fit into one request
+    "bigmsg": {"CONFIG_MAX_MESSAGE_SIZE": "131072", "CONFIG_MAX_WRITE_BUFFER_SIZE": "262144"},
 }
 
 
